@@ -124,6 +124,10 @@ func checkDomTree(name string, m *M, root int, idom []int, reach []bool, dt flow
 }
 
 func checkDom(c domCase) *vk.Failure {
+	return withIndet(c.G, func(g G) *vk.Failure { c2 := c; c2.G = g; return checkDom1(c2) })
+}
+
+func checkDom1(c domCase) *vk.Failure {
 	c.Dir = true
 	m := model(c.G)
 	if m.n == 0 {
@@ -168,6 +172,10 @@ func checkDom(c domCase) *vk.Failure {
 // are maximal; the interval graph has an arc I->J exactly when some arc of g
 // leads from I to J.
 func checkIntervals(c domCase) *vk.Failure {
+	return withIndet(c.G, func(g G) *vk.Failure { c2 := c; c2.G = g; return checkIntervals1(c2) })
+}
+
+func checkIntervals1(c domCase) *vk.Failure {
 	c.Dir = true
 	m0 := model(c.G)
 	if m0.n == 0 {
@@ -377,7 +385,7 @@ func TestDirDom(t *testing.T) {
 	gen := func(i int) domCase { return domCase{G: exhG(true, blocks, i/maxN), Root: i % maxN} }
 	vk.Enumerate(t, "dir-dom-exh", total*maxN, gen, checkDom)
 	draw := func(t *rapid.T) domCase {
-		g := drawG(t, true, 40, dirClasses, []int{contOrdered, contOrdered, contSimple})
+		g := drawG(t, true, 40, dirClasses, []int{contOrdered, contOrdered, contSimple, contIndet})
 		return domCase{G: g, Root: rapid.IntRange(0, max(g.N-1, 0)).Draw(t, "root")}
 	}
 	vk.Run(t, "dir-dom", vk.Opts{Quick: 8000, Thorough: 150000, NoCrumb: true}, draw, checkDom)
